@@ -507,9 +507,13 @@ def program_equivalence(prog1, prog2, compare_params=True, atol=1e-6, rtol=0):
                     wire_mapping[i] = [j.ind for j in n.reg]
 
             elif n.op.__class__.__name__ == "BSgate":
-                # if the beamsplitter is not symmetric, order matters
-                bs_params = [j % np.pi for j in par_evaluate(n.op.p)]
-                if not np.allclose(bs_params, [np.pi / 4, np.pi / 2]):
+                # if the beamsplitter is not symmetric (or its parameters have no value yet), order matters
+                try:
+                    bs_params = [j % np.pi for j in par_evaluate(n.op.p)]
+                    symmetric = np.allclose(bs_params, [np.pi / 4, np.pi / 2])
+                except ParameterError:
+                    symmetric = False
+                if not symmetric:
                     wire_mapping[i] = [j.ind for j in n.reg]
 
             elif (
